@@ -1,2 +1,59 @@
-(* Properties_C09_hll.v — placeholder while the codec pipeline is brought up (replaced by the theorems). *)
-From DS Require Import HllCodecDefs.
+(* Properties_C11_hll.v — truncated and corrupted hll_sketch images (C11), about the model decoders [dec_stream] / [dec_bytes] of
+   HllCodecDefs.v (= the two readers as repaired by fixes/11_hll_reader_bounds.patch; their verdict and the accepted content are
+   compared with the C++ on every strict prefix and on preamble-byte mutations by fam_hllcodec under ASan/UBSan).
+   The decoders are total Coq functions on ARBITRARY byte lists (no exception path, no partiality). *)
+From Coq Require Import ZArith NArith List Bool Lia.
+From DS Require Import Word RunnerLib HllDefs HllProofs HllSketchProofs HllCodecDefs HllCodecProofs.
+Import ListNotations.
+Local Open Scope N_scope.
+
+(* every strict prefix of an image is rejected by the stream reader *)
+Theorem C11_hll_prefix_rejected_stream : forall ty lgk full cs i compact hip n,
+  4 <= lgk -> lgk <= 21 -> Forall cvalid cs -> sk_run ty lgk full cs = Some i -> hip < two64 ->
+  (n < length (enc compact hip i))%nat -> dec_stream (firstn n (enc compact hip i)) = None.
+Proof. exact run_prefix_stream. Qed.
+
+(* the bytes reader rejects a truncated image, or - only the unused aux area of an updatable HLL_4 image can be missing -
+   yields the very same sketch as the full image *)
+Theorem C11_hll_prefix_bytes : forall ty lgk full cs i compact hip n,
+  4 <= lgk -> lgk <= 21 -> Forall cvalid cs -> sk_run ty lgk full cs = Some i -> hip < two64 ->
+  dec_bytes (firstn n (enc compact hip i)) = None \/ dec_bytes (firstn n (enc compact hip i)) = dec_bytes (enc compact hip i).
+Proof. exact run_prefix_bytes. Qed.
+
+(* what a decoder accepted it read from the bytes it was given: appending bytes never changes the decoded sketch (arbitrary input) *)
+Theorem C11_hll_decode_stable : forall stream p x d r, dec_gen stream p = Some (d, r) ->
+  exists r', dec_gen stream (p ++ x) = Some (d, r') /\ (stream = true -> r' = r ++ x).
+Proof. exact dec_gen_ext. Qed.
+
+(* ARBITRARY bytes: an accepted image has bounded, consistent content - lg_k in range, counts within the structural limits,
+   the register array and the coupon count no larger than the input: no allocation beyond a constant multiple of the input *)
+Theorem C11_hll_accepted_list : forall stream bs d r l, dec_list stream bs = Some (d, r) -> d_impl d = IList l ->
+  4 <= l_lgk l /\ l_lgk l <= 21 /\ l_cnt l <= 8 /\ lenN (nonzero (l_arr l)) = l_cnt l /\ 8 <= lenN bs.
+Proof. exact accepted_list_bounded. Qed.
+
+Theorem C11_hll_accepted_set : forall stream bs d r s, dec_set stream bs = Some (d, r) -> d_impl d = ISet s ->
+  8 <= s_lgk s /\ s_lgk s <= 21 /\ 4 * s_cnt s <= 3 * 2 ^ (s_lgk s - 3) /\ 4 * s_cnt s <= lenN bs.
+Proof. exact accepted_set_bounded. Qed.
+
+Theorem C11_hll_accepted_array : forall stream bs d r h, dec_hll stream bs = Some (d, r) -> d_impl d = IHll h ->
+  40 + lenN (h_bytes h) <= lenN bs /\ 4 <= h_lgk h /\ h_lgk h <= 21 /\ h_numat h <= 2 ^ h_lgk h.
+Proof. exact accepted_hll_bounded. Qed.
+
+(* non-vacuity: corrupted preambles are refused (lg_k 3, lg_k 22, list count 9, aux entries in an HLL_8 image, unknown first byte),
+   a truncated list image is refused by both readers *)
+Example C11_hll_nonvacuous :
+  dec_bytes [2; 1; 7; 3; 3; 0; 0; 8] = None /\ dec_bytes [2; 1; 7; 22; 3; 12; 0; 8] = None /\
+  dec_bytes ([2; 1; 7; 10; 3; 8; 9; 8] ++ zerosN 36) = None /\
+  dec_bytes ([10; 1; 7; 4; 0; 8; 0; 10] ++ zerosN 28 ++ [1; 0; 0; 0] ++ zerosN 16 ++ zerosN 8) = None /\
+  dec_stream [7; 1; 7] = None /\ dec_stream [] = None /\
+  (exists d, dec_bytes ([2; 1; 7; 10; 3; 8; 1; 8] ++ le32 (pair_sv 5 3)) = Some d) /\
+  dec_bytes ([2; 1; 7; 10; 3; 8; 1; 8] ++ firstn 3 (le32 (pair_sv 5 3))) = None /\
+  dec_stream ([2; 1; 7; 10; 3; 8; 1; 8] ++ firstn 3 (le32 (pair_sv 5 3))) = None.
+Proof. vm_compute. repeat split; try reflexivity. eexists; reflexivity. Qed.
+
+Print Assumptions C11_hll_prefix_rejected_stream.
+Print Assumptions C11_hll_prefix_bytes.
+Print Assumptions C11_hll_decode_stable.
+Print Assumptions C11_hll_accepted_list.
+Print Assumptions C11_hll_accepted_set.
+Print Assumptions C11_hll_accepted_array.
